@@ -156,6 +156,7 @@ func init() {
 			ruleEncoderWrites(c)
 			ruleEncoderOneOf(c)
 			ruleMarshalOutputImmutable(c)
+			ruleMemberLoopOrderIndependent(c)
 			ruleConstantFormats(c)
 			ruleBareObject(c)
 			c.Clause("C13-D3")
@@ -186,6 +187,7 @@ func init() {
 			}
 			c.Clause("C14-D1")
 			ruleNoReceiverWrites(c, c.M.Func(c.M.Pkg, "(*Error).WithData"), "EFFECT.pure", "WithData leaves its receiver alone")
+			ruleErrorValuesImmutable(c)
 			c.Clause("C14-D2")
 			ruleErrCodeAccessors(c)
 			c.Clause("C14-D3")
